@@ -26,6 +26,7 @@
 #endif
 
 #include <stdint.h>
+#include <limits.h>
 
 /**
  * @ingroup application_api
